@@ -106,6 +106,29 @@ class RealEnv:
             return self.tn.tensor([v], dtype=self.dt(dtype))
         return v
 
+    def pos_tensor(self, name, shape, pattern, dtype='float64', source='torch'):
+        n = 1
+        for x in shape:
+            n *= x
+        if self.given is not None:
+            flat = [self._f(v) for v in self.given[name]['values']]
+            t = self.tn.tensor(flat, dtype=self.dt(dtype)).reshape(list(shape))
+        else:
+            t = self.tn.zeros(list(shape), dtype=self.dt(dtype))
+            for k, ix in enumerate(pattern):
+                t[tuple(ix)] = abs(float(seeded_fraction(self.seed, name, k)))
+        if source == 'numpy':
+            return t.numpy().copy()
+        return t
+
+    def pos_scalar(self, name, lo=None, hi=None):
+        if self.given is not None:
+            return self._f(self.given[name]['values'])
+        f = abs(float(seeded_fraction(self.seed, name, 0)))
+        if hi is not None:
+            f = f * hi / 4
+        return f
+
     def const_tensor(self, nested, dtype='float64'):
         return self.tn.tensor(nested, dtype=self.dt(dtype))
 
